@@ -181,6 +181,9 @@ func usage() {
 	os.Exit(2)
 }
 
+// ruleTimeout bounds the time a single rule may take (the slowest takes a few seconds).
+const ruleTimeout = 180 * time.Second
+
 type runResult struct {
 	obs      []*Ob
 	ruleErrs []string
@@ -200,8 +203,15 @@ func runRules(c *Ctx, want map[string]bool) *runResult {
 		if !serves {
 			continue
 		}
+		if only := os.Getenv("OBIVERIF_RULE"); only != "" && only != r.ID {
+			continue // debugging aid: one rule at a time
+		}
 		s := &Sink{c: c, rule: r, props: r.Props}
-		func() {
+		// a rule that does not come back is reported as undecided (a failure) instead of hanging the check: the
+		// path enumerations are bounded, but a bound that is too generous on an unforeseen shape must not block
+		done := make(chan struct{})
+		go func() {
+			defer close(done)
 			defer func() {
 				if e := recover(); e != nil {
 					s.add(Undecided, r.Props, r.ID+":panic", 0, fmt.Sprintf("analyser panicked: %v", e))
@@ -209,6 +219,16 @@ func runRules(c *Ctx, want map[string]bool) *runResult {
 			}()
 			r.Run(c, s)
 		}()
+		select {
+		case <-done:
+		case <-time.After(ruleTimeout):
+			// the sink of the runaway rule is abandoned (it may still be written to): a fresh one carries the verdict
+			s = &Sink{c: c, rule: r, props: r.Props}
+			s.add(Undecided, r.Props, r.ID+":timeout", 0, fmt.Sprintf("the analysis did not terminate within %s", ruleTimeout))
+			res.perRule[r.ID] = 0
+			res.obs = append(res.obs, s.obs...)
+			continue
+		}
 		res.perRule[r.ID] = len(s.obs)
 		if len(s.obs) < r.Min {
 			s.add(Undecided, r.Props, r.ID+":instances", 0,
